@@ -19,6 +19,7 @@ import cspuz.generator.builder as GB
 import cspuz.generator.core as GC
 import cspuz.generator.deterministic_random as DR
 import cspuz.generator.srandom as SR
+from cspuz.expr import BoolVar
 from cspuz.generator import ArrayBuilder2D, Choice, SegmentationBuilder2D, generate_problem
 
 from ..monitors import mseg
@@ -34,7 +35,8 @@ ASSUMPTIONS = ["disallow_adjacent offset lists are symmetric (closed under negat
                "chi-square alarms use a 1e-9 false-alarm bound; the exact (scripted-entropy) part has none"]
 REQUIRED = ["c19.generate_runs", "c19.returned_problem", "c19.returned_none", "c19.neighbours_judged", "c19.symmetry_judged", "c19.adjacency_judged",
             "c19.move_updates", "c19.purity_reverified", "c19.repro_compared", "c19.segmentation_runs", "c19.real_solver_runs",
-            "c19.prng_scripted", "c19.prng_rejected_words", "c19.prng_stat", "c19.pattern.nested", "c19.pattern.choice", "c19.cross_process_compared"]
+            "c19.prng_scripted", "c19.prng_rejected_words", "c19.prng_stat", "c19.pattern.nested", "c19.pattern.choice", "c19.cross_process_compared", "c19.solve_initial_problem",
+            "c19.explicit_neighbor_generator", "c19.default_checkers"]
 
 
 def plan(tier):
@@ -166,7 +168,10 @@ def judge_neighbour(ctx, pattern, cur, nxt, desc):
 
 
 # ----------------------------------------------------------------------------- one monitored generate run
-def monitored_generate(ctx, pattern_factory, solver_cb, uniq_cb, score_cb, pretest_cb, desc, max_steps, penalty=None, pattern=None):
+def monitored_generate(ctx, pattern_factory, solver_cb, uniq_cb, score_cb, pretest_cb, desc, max_steps, penalty=None, pattern=None,
+                       explicit=False, solve_initial=False, expect_unique=None):
+    """explicit: hand initial_problem / neighbor_generator over instead of builder_pattern; solve_initial: solve_initial_problem=True;
+    uniq_cb / score_cb None: the library's default checkers judge the answer objects (expect_unique(problem) says what they must find)"""
     rec = Rec()
     pattern = pattern if pattern is not None else pattern_factory()
     rec.pattern = pattern
@@ -198,6 +203,17 @@ def monitored_generate(ctx, pattern_factory, solver_cb, uniq_cb, score_cb, prete
         rec.uniq.append(bool(r))
         return r
 
+    kw = {}
+    if uniq_cb is not None:
+        kw["uniqueness"] = uniq
+    if score_cb is not None:
+        kw["score"] = score_cb
+    if solve_initial:
+        kw["solve_initial_problem"] = True
+        ctx.count("c19.solve_initial_problem")
+    if max_steps is not None:
+        kw["max_steps"] = max_steps
+
     pre_log = []
 
     def pretest(p):
@@ -208,8 +224,13 @@ def monitored_generate(ctx, pattern_factory, solver_cb, uniq_cb, score_cb, prete
     GC.build_neighbor_generator = bng
     _rec[0] = rec
     try:
-        res = generate_problem(solver, builder_pattern=pattern, score=score_cb, uniqueness=uniq, pretest=(pretest if pretest_cb else None),
-                               clue_penalty=penalty, max_steps=max_steps)
+        if explicit:
+            ctx.count("c19.explicit_neighbor_generator")
+            ini, gen = bng(pattern)
+            res = generate_problem(solver, initial_problem=ini, neighbor_generator=gen, pretest=(pretest if pretest_cb else None),
+                                   clue_penalty=penalty, **kw)
+        else:
+            res = generate_problem(solver, builder_pattern=pattern, pretest=(pretest if pretest_cb else None), clue_penalty=penalty, **kw)
     finally:
         GC.build_neighbor_generator = real_bng
         _rec[0] = None
@@ -225,15 +246,18 @@ def monitored_generate(ctx, pattern_factory, solver_cb, uniq_cb, score_cb, prete
                 ctx.violation("soundness:returned-other-problem", "the returned problem is not the one last passed to the solver", desc)
             elif not last_sat:
                 ctx.violation("soundness:returned-unsat", "the returned problem was reported unsatisfiable by the solver", desc)
-            elif not rec.uniq or not rec.uniq[-1]:
+            elif uniq_cb is not None and (not rec.uniq or not rec.uniq[-1]):
                 ctx.violation("soundness:returned-non-unique", "the returned problem was not accepted by the uniqueness test", desc)
+            elif uniq_cb is None and expect_unique is not None and not expect_unique(res):
+                ctx.violation("soundness:returned-non-unique:default-checker", "the returned problem's answer has an undetermined entry "
+                              "(the default uniqueness test must have rejected it)", desc)
             if pretest_cb and not any(r == repr(res) and ok for r, ok in pre_log):
                 ctx.violation("soundness:returned-without-pretest", "the returned problem did not pass pretest", desc)
     else:
         ctx.count("c19.returned_none")
     if pretest_cb:
         okset = {r for r, ok in pre_log if ok}
-        for r, sat, _ in rec.solver_calls:
+        for r, sat, _ in rec.solver_calls[(1 if solve_initial else 0):]:  # the initial problem is solved without pretest
             if r not in okset:
                 ctx.violation("soundness:solver-called-on-pretest-reject", "the solver was called on a problem that pretest rejected", desc)
                 break
@@ -270,6 +294,31 @@ def scripted_callbacks(salt, sat_rate, uniq_rate):
         return (tok.v >> 20) % 17
 
     return solver, uniq, score
+
+
+def default_answer_callbacks(salt, sat_rate, uniq_rate):
+    """A solver callback whose answer consists of real cspuz objects (a variable, arrays, a grid frame, nested lists) with scripted
+    .sol values, for the library's DEFAULT score / uniqueness functions: all entries are decided iff the keyed hash says 'unique',
+    otherwise exactly one entry - at a place chosen by the hash: the single variable, an array, the frame, the nested list - is None."""
+    def unique(p):
+        return (h32(f"{salt}|{p!r}") >> 10) % 1000 < uniq_rate * 1000
+
+    def solver(p):
+        x = h32(f"{salt}|{p!r}")
+        s = cspuz.Solver()
+        v = s.bool_var()
+        a1 = s.int_array(3, 0, 5)
+        a2 = s.bool_array((2, 2))
+        fr = cspuz.BoolGridFrame(s, 1, 1)
+        deep = [s.int_var(0, 3), [s.bool_var(), [s.int_var(0, 1)]]]
+        every = [v] + list(a1) + list(a2) + list(fr) + [deep[0], deep[1][0], deep[1][1][0]]
+        for k, e in enumerate(every):
+            e.sol = (k % 2 == 0) if isinstance(e, BoolVar) else k % 3
+        if not unique(p):
+            every[(x >> 3) % len(every)].sol = None
+        return (x % 1000 < sat_rate * 1000, v, a1, a2, fr, deep)
+
+    return solver, unique
 
 
 def sym_offsets(rng):
@@ -359,7 +408,13 @@ def run_scripted(ctx, rng, t):
     uniq_rate = rng.choice([0.0, 0.02, 0.1, 0.5])
     use_pre = rng.random() < 0.3
     max_steps = rng.choice([3, 10, 40])
-    desc = dict(desc, seed=seed, salt=salt, sat_rate=sat_rate, uniq_rate=uniq_rate, pretest=use_pre, max_steps=max_steps)
+    explicit = rng.random() < 0.25
+    solve_initial = rng.random() < 0.3
+    use_defaults = rng.random() < 0.25
+    if use_defaults:
+        ctx.count("c19.default_checkers")
+    desc = dict(desc, seed=seed, salt=salt, sat_rate=sat_rate, uniq_rate=uniq_rate, pretest=use_pre, max_steps=max_steps, explicit=explicit,
+                solve_initial=solve_initial, default_checkers=use_defaults)
     ctx.current_case = desc
     ctx.count("c19.pattern." + kind)
     if kind == "segmentation":
@@ -376,9 +431,15 @@ def run_scripted(ctx, rng, t):
         if rep == 1:
             s0 = solver
             solver = lambda p, s0=s0: s0(copy.deepcopy(p))  # noqa: E731
+        if use_defaults:
+            solver, expect_unique = default_answer_callbacks(salt, sat_rate, max(uniq_rate, 0.05))
+            uniq = score = None
+        else:
+            expect_unique = None
         try:
             # repetition 2 reuses repetition 1's builder objects: builders must not carry state from one run to the next
-            res, rec = monitored_generate(ctx, fac, solver, uniq, score, pre, desc, max_steps, pen, pattern=(prev_pattern if rep == 2 else None))
+            res, rec = monitored_generate(ctx, fac, solver, uniq, score, pre, desc, max_steps, pen, pattern=(prev_pattern if rep == 2 else None),
+                                          explicit=explicit, solve_initial=solve_initial, expect_unique=expect_unique)
             prev_pattern = rec.pattern
         except Exception as e:
             ctx.violation(f"generate-raises:{type(e).__name__}:{kind}", f"generate_problem raised {e!r}", desc)
